@@ -314,9 +314,11 @@ def step(ctx, rng, t, m, log):
         size = rng.randint(0, n + 1)
         log.append([op, size])
         t.rstrip_end(size)
-        if n > size:
+        # "remove whitespace beyond a certain width": the width is measured in cells
+        cells = m.cells()
+        if cells > size:
             ws = n - len(m.plain.rstrip())
-            m.crop_to(n - min(ws, n - size))
+            m.crop_to(n - min(ws, cells - size))
     elif op == "remove_suffix":
         k = rng.randint(0, min(3, n))
         suffix = m.plain[n - k:] if rng.random() < 0.7 else "zz"
